@@ -58,6 +58,7 @@ fn main() {
             coord::determinism(&args[2], "quick", runs)
         }
         "exec" => {
+            coord::die_with_parent();
             session::install_panic_hook();
             coord::silence_stderr();
             let s = std::fs::read_to_string(&args[2]).expect("read run file");
@@ -93,7 +94,7 @@ fn main() {
         "strip" => strip::strip_file(&args[2], &args[3]),
         "compile" => tools::compile_cmd(&args[2..]),
         "prepare-js" => tools::prepare_js(&args[2]),
-        "prepare-js-chunk" => tools::prepare_js_chunk(&args[2], args[3].parse().unwrap(), args[4].parse().unwrap()),
+        "prepare-js-chunk" => { coord::die_with_parent(); tools::prepare_js_chunk(&args[2], args[3].parse().unwrap(), args[4].parse().unwrap()) }
         _ => {
             println!("usage: sim check <C04|C10|C14> [--tier quick|thorough] | replay <file> | selftest | strip <in.ts> <out.js> | compile ...");
             2
